@@ -315,12 +315,206 @@ def scipy_check(rel, cs, pt_names, pt, rep):
     return fails, out
 
 
+# ------------------------------------------------------------------ whole problems through the minimize seam
+
+
+class _Captured(Exception):
+    pass
+
+
+def capture_solver_inputs(prob, method):
+    """what optyx really hands to scipy.optimize.minimize (the import seam of solvers/scipy_solver.py)"""
+    import optyx.solvers.scipy_solver as SS
+
+    got = {}
+
+    def spy(*a, **kw):
+        got.update(kw)
+        got["_args"] = a
+        raise _Captured()
+
+    old = SS.minimize
+    SS.minimize = spy
+    try:
+        with warnings.catch_warnings():
+            warnings.simplefilter("ignore")
+            prob.solve(method=method)
+    finally:
+        SS.minimize = old
+    return got
+
+
+def gen_solver_problem(rng):
+    """a problem with long vectors (>= 11 elements), digit-bearing scalar / container names and constraints that each
+    touch a strict subset of the variables with unequal partial derivatives (linear and nonlinear)"""
+    import optyx
+    from optyx.core.functions import sin, cos
+    from props import c16 as N
+
+    for _ in range(50):
+        fam = N.name_family(rng)
+        decls = [["vec", nm, rng.choice([11, 12, 13, 3]), None, None] for nm in rng.sample(fam, min(len(fam), rng.randint(1, 2)))]
+        decls += [["scalar", nm, None, None] for nm in rng.sample(fam, min(len(fam), rng.randint(2, 5)))]
+        if rng.random() < 0.3:
+            decls.append(["mat", rng.choice(fam), rng.choice([1, 2]), rng.choice([2, 11]), False, None, None])
+        if N.names_unique(decls):
+            break
+    else:
+        decls = [["vec", "x", 12, None, None], ["scalar", "x9", None, None], ["scalar", "x10", None, None]]
+    vecs, mats, scalars = [], [], []
+    for d in decls:
+        if d[0] == "vec":
+            vecs.append(optyx.VectorVariable(d[1], d[2]))
+        elif d[0] == "mat":
+            mats.append(optyx.MatrixVariable(d[1], d[2], d[3]))
+        else:
+            scalars.append(optyx.Variable(d[1]))
+    allv = [v for vv in vecs for v in vv] + [v for m in mats for row in m._variables for v in row] + scalars
+    obj = None
+    for vv in vecs:
+        t = vv.dot(vv)
+        obj = t if obj is None else obj + t
+    for m in mats:
+        obj = obj + (m * m).sum() if obj is not None else (m * m).sum()
+    for v in scalars:
+        obj = obj + v * v if obj is not None else v * v
+
+    def coef():
+        return rng.choice([1.0, 2.0, 3.0, 5.0, -2.0, 0.5, -1.0, 4.0, -3.0, 7.0])
+
+    cons = []
+    for _ in range(rng.randint(4, 8)):
+        k = rng.randint(1, min(5, len(allv) - 1))
+        vs = rng.sample(allv, k)
+        form = rng.choice(["lin", "lin", "pow", "prod", "trig", "slice-lc", "slice-dot", "mixed"])
+        if form == "slice-lc" and vecs:
+            vv = rng.choice(vecs)
+            n = len(vv)
+            view = vv[rng.randint(0, 2):n:rng.choice([2, 3, 4, 5])]
+            e = np.array([coef() for _ in range(len(view))]) @ view
+        elif form == "slice-dot" and vecs and len(rng.choice(vecs)) >= 6:
+            vv = max(vecs, key=len)
+            n = len(vv)
+            a = vv[0:n - 1:3]
+            b = vv[1:n:3]
+            m_ = min(len(a), len(b))
+            e = a[0:m_].dot(b[0:m_]) + coef() * vs[0]
+        elif form == "lin":
+            e = sum((coef() * v for v in vs[1:]), coef() * vs[0])
+        elif form == "pow":
+            e = sum((coef() * v ** rng.choice([1, 2, 3]) for v in vs[1:]), coef() * vs[0] ** 2)
+        elif form == "prod":
+            e = coef() * vs[0]
+            for v in vs[1:]:
+                e = e * v if rng.random() < 0.5 else e + coef() * v * vs[0]
+        elif form == "trig":
+            e = sum((coef() * sin(v) if rng.random() < 0.5 else coef() * cos(coef() * v) for v in vs[1:]), coef() * sin(vs[0]))
+        else:
+            e = coef() * vs[0] ** 2 + sum((coef() * v for v in vs[1:]), 0.0 * vs[0])
+        rhs = rng.choice([0.5, 1.0, -2.0, 4.0, 0])
+        rel = rng.choice(["le", "ge", "eq"])
+        cons.append(do_compare(rel, e, rhs))
+    prob = optyx.Problem()
+    (prob.maximize if rng.random() < 0.25 else prob.minimize)(obj)
+    order = list(range(len(cons)))
+    rng.shuffle(order)
+    for i in order:
+        prob.subject_to(cons[i])
+    return {"problem": prob, "constraints": [cons[i] for i in order], "vars": allv, "names": sorted(v.name for v in allv),
+            "decls": decls, "method": rng.choice(["SLSQP", "SLSQP", "trust-constr"])}
+
+
+def problem_desc(sp):
+    """everything needed to rebuild the problem (replay): S-expressions of objective and constraints"""
+    S = Ser(with_ids=False)
+    prob = sp["problem"]
+    return {"objective": S.expr(prob.objective), "maximize": prob.sense == "maximize", "method": sp["method"],
+            "constraints": [[S.expr(c.expr), c.sense] for c in sp["constraints"]], "names": sp["names"]}
+
+
+def rebuild_problem(desc):
+    import optyx
+    from optyx.constraints import Constraint
+    from ser import Deser, parse_sexp
+
+    d = Deser()
+    obj = d.expr(parse_sexp(desc["objective"])[0])
+    cons = [Constraint(expr=d.expr(parse_sexp(e)[0]), sense=sn) for e, sn in desc["constraints"]]
+    prob = optyx.Problem()
+    (prob.maximize if desc["maximize"] else prob.minimize)(obj)
+    for c in cons:
+        prob.subject_to(c)
+    return {"problem": prob, "constraints": cons, "names": desc["names"], "method": desc["method"]}
+
+
+def solver_seam_check(sp, rng, rep, n_points=2, points=None):
+    """fun / jac of every dict handed to minimize vs dual-number derivatives of lhs - rhs, column i = i-th name in natural order"""
+    from props import c16 as N
+
+    prob, cons = sp["problem"], sp["constraints"]
+    got = capture_solver_inputs(prob, sp["method"])
+    fails, probes = [], []
+    try:
+        desc = problem_desc(sp)
+    except Unsupported:
+        rep.skipped["unsupported-problem"] = rep.skipped.get("unsupported-problem", 0) + 1
+        return [], []
+    if "constraints" not in got:
+        return [{"what": "minimize was not reached", "problem": desc}], []
+    dicts = list(got["constraints"])
+    names = sorted(set(sp["names"]), key=N.natural_key)     # the declared (natural) order, computed here
+    variables = prob.variables
+    if [v.name for v in variables] != names:
+        rep.skipped["variable-order (C16's subject)"] = rep.skipped.get("variable-order (C16's subject)", 0) + 1
+        return [], []
+    if len(dicts) != len(cons):
+        return [{"what": "number of SciPy dicts differs from the number of constraints", "problem": desc}], []
+    rep.histogram["solver-problems"] = rep.histogram.get("solver-problems", 0) + 1
+    pts = points if points is not None else [{nm: rng.randint(-16, 16) / 8 for nm in names} for _ in range(n_points)]
+    for pt in pts:
+        xvec = np.array([pt[nm] for nm in names], dtype=float)
+        for i, (c, d) in enumerate(zip(cons, dicts)):
+            with warnings.catch_warnings(), np.errstate(all="ignore"):
+                warnings.simplefilter("ignore")
+                try:
+                    f = float(d["fun"](xvec))
+                    j = np.asarray(d["jac"](xvec), dtype=float).reshape(-1)
+                except Exception as ex:  # noqa: BLE001
+                    fails.append({"what": "a SciPy constraint callable raised", "error": f"{type(ex).__name__}: {ex}"[:160],
+                                  "index": i, "problem": desc, "point": pt})
+                    continue
+            try:
+                val = oracle.ref_eval(c.expr, pt)
+                grad = [oracle.ref_grad(c.expr, pt, nm) for nm in names]
+            except (oracle.NotRegular, ZeroDivisionError, OverflowError, ValueError):
+                rep.skipped["irregular-point"] = rep.skipped.get("irregular-point", 0) + 1
+                continue
+            sign = -1.0 if c.sense == "<=" else 1.0
+            own = {v.name for v in World.vars_of(c.expr)}
+            key = "subset" if len(own) < len(names) else "dense"
+            rep.histogram["seam:" + key] = rep.histogram.get("seam:" + key, 0) + 1
+            want_type = "eq" if c.sense == "==" else "ineq"
+            if d["type"] != want_type or not oracle.close(f, sign * val, 1e-9, 1e-10):
+                fails.append({"what": "SciPy constraint function is not ±(lhs - rhs) with the sign of the sense", "index": i,
+                              "sense": c.sense, "type": d["type"], "fun": f, "want": sign * val, "problem": desc, "point": pt})
+                continue
+            if len(j) != len(grad) or any(not oracle.close(a, sign * b, 1e-7, 1e-8) for a, b in zip(j, grad)):
+                fails.append({"what": "SciPy constraint Jacobian is not the derivative of the constraint function", "index": i,
+                              "sense": c.sense, "constraint": desc["constraints"][i][0][:300], "variables": names,
+                              "jac": [float(a) for a in j], "want": [sign * g for g in grad], "problem": desc, "point": pt})
+                continue
+            probes.append((c, variables, dict(pt), f, j))
+    return fails[:3], probes
+
+
 def run(ctx) -> core.Report:
     rng = ctx["rng"]
     thorough = ctx["tier"] == "thorough" or ctx["escalate"]
     rep = core.Report(rule="exhaustive operand-kind table (left kind × right kind × {<=, >=, .eq} × shape relations) on the real "
                            "operators for several sizes, then violation / is_satisfied / SciPy dicts of every constraint that was "
-                           "created, probed at seeded dyadic points; non-trivial = distinct (operand pair, relation) cells that "
+                           "created, probed at seeded dyadic points; then whole problems (vectors of >= 11 elements, digit-bearing names, "
+                           "constraints over strict subsets of the variables with unequal partials, linear and nonlinear) whose dicts are "
+                           "captured at the scipy.optimize.minimize seam and checked against dual-number derivatives; non-trivial = distinct (operand pair, relation) cells that "
                            "produce at least one constraint")
     shapes = [(3, 2, 3), (1, 1, 1), (2, 3, 3)] + ([(4, 2, 2), (6, 3, 4), (5, 1, 4)] if thorough else [])
     n_points = 4 if thorough else 2
@@ -431,6 +625,23 @@ def run(ctx) -> core.Report:
                     probe_lines.append(f"scipy {sense} {e} {vs} {env_text(full)} {store}")
                     probe_meta.append(("scipy", c, full, (fval, jac)))
 
+    # --- whole problems through the solver seam: constraints over strict subsets of the problem's variables
+    n_prob = 160 if thorough else 45
+    for _ in range(n_prob):
+        sp = gen_solver_problem(rng)
+        fails, probes = solver_seam_check(sp, rng, rep, n_points=3 if thorough else 2)
+        rep.oracle_failures.extend(fails)
+        rep.nontrivial.add(("solver", tuple(sp["names"]), len(sp["constraints"])))
+        for c, variables, full, fval, jac in probes[:3]:
+            try:
+                e = Ser(ids).expr(c.expr)
+                vs = "(" + " ".join(Ser(ids).var(v) for v in variables) + ")"
+            except Unsupported:
+                continue
+            sense = {"<=": "le", ">=": "ge", "==": "eq"}[c.sense]
+            probe_lines.append(f"scipy {sense} {e} {vs} {env_text(full)} ()")
+            probe_meta.append(("scipy", c, full, (fval, jac)))
+
     outs = run_lean_unit(lines + probe_lines)
     rep.evaluations = len(lines) + len(probe_lines)
 
@@ -481,6 +692,10 @@ def search(ctx, rep):
     rng = core.Rng(ctx["seed"] + 15485863)
     dummy = core.Report()
     from optyx.constraints import Constraint
+    for _ in range(150):
+        fails, _p = solver_seam_check(gen_solver_problem(rng), rng, dummy, n_points=2)
+        if fails:
+            return fails[0]
     for _ in range(40):
         W = World(rng.randint(1, 6), rng.randint(1, 4), rng.randint(1, 4))
         pairs = [(a, b) for a in W.ops for b in W.ops if a.kind in OPTYX_KINDS or b.kind in OPTYX_KINDS]
@@ -516,6 +731,13 @@ def search(ctx, rep):
 
 def replay(payload) -> bool:
     f = payload["failure"]
+    if "problem" in f:
+        sp = rebuild_problem(f["problem"])
+        pt = {k: float(v) for k, v in f["point"].items()} if "point" in f else None
+        fails, _p = solver_seam_check(sp, core.Rng(0), core.Report(), points=[pt] if pt else None)
+        for x in fails:
+            print({k: x[k] for k in x if k not in ("problem", "point", "variables")})
+        return not fails
     if "shape" not in f and "cell" in f and "point" not in f:
         print("structural finding:", f.get("what"))
         return False
